@@ -238,6 +238,82 @@ theorem fatal_payload (i : PSInp) :
         (ofString "from_state", i.fromState)]) := by
   simp [processStatePayload, extraOf, extraValues, List.lookup, processStateLead, psItems, psValue]
 
+/-! ### payloads of the other notifications: content, line by line -/
+
+/-- PROCESS_GROUP_ADDED / PROCESS_GROUP_REMOVED: one line `groupname:<the group's name>` -/
+theorem group_payload (g : Text) :
+    fmtS (ofString processGroupTemplate) [g] = some (ofString "groupname:" ++ g ++ [10]) := by
+  rfl
+
+/-- SUPERVISOR_STATE_CHANGE_RUNNING / _STOPPING: the payload is empty (the event name says it all) -/
+theorem supervisor_state_payload : ofString supervisorStatePayload = [] := by decide
+
+/-- TICK_*: `when:<seconds>` -/
+theorem tick_payload (w : Text) : fmtS (ofString tickTemplate) [w] = some (ofString "when:" ++ w) := by
+  have : fmtS (ofString tickTemplate) [w] = some (ofString "when:" ++ (w ++ [])) := rfl
+  simpa using this
+
+/-- REMOTE_COMMUNICATION: first line `type:<type>`, then the data, unchanged -/
+theorem remote_payload (t d : Text) :
+    fmtS (ofString remoteCommTemplate) [t, d] = some (ofString "type:" ++ t ++ 10 :: d) := by
+  have : fmtS (ofString remoteCommTemplate) [t, d] = some (ofString "type:" ++ t ++ 10 :: (d ++ [])) := rfl
+  simpa using this
+
+/-- **remote one-to-one**: one call of `sendRemoteCommEvent(type, data)` raises exactly one
+    REMOTE_COMMUNICATION notification, whose payload carries exactly that type and that data
+    (for every type and data, also multi-line and non-ASCII) -/
+theorem send_remote_comm (t d : Text) :
+    sendRemoteComm t d = some [ofString "type:" ++ t ++ 10 :: d] := by
+  have : sendRemoteComm t d = some [ofString "type:" ++ t ++ 10 :: (d ++ [])] := rfl
+  simpa using this
+
+/-- PROCESS_LOG_STDOUT / _STDERR: header line processname, groupname, pid, channel — in this
+    order — then a newline, then the data, unchanged -/
+theorem process_log_payload (name group pid channel data : Text) :
+    fmtS (ofString processLogTemplate) [name, group, pid, channel, data] =
+      some (renderPairs [(ofString "processname", name), (ofString "groupname", group),
+        (ofString "pid", pid), (ofString "channel", channel)] ++ 10 :: data) := by
+  have ht : ofString processLogTemplate = [112, 114, 111, 99, 101, 115, 115, 110, 97, 109, 101, 58, 37, 115, 32, 103, 114, 111, 117, 112, 110, 97, 109, 101, 58, 37, 115, 32, 112, 105, 100, 58, 37, 115, 32, 99, 104, 97, 110, 110, 101, 108, 58, 37, 115, 10, 37, 115] := by decide
+  have k1 : ofString "processname" = [112, 114, 111, 99, 101, 115, 115, 110, 97, 109, 101] := by decide
+  have k2 : ofString "groupname" = [103, 114, 111, 117, 112, 110, 97, 109, 101] := by decide
+  have k3 : ofString "pid" = [112, 105, 100] := by decide
+  have k4 : ofString "channel" = [99, 104, 97, 110, 110, 101, 108] := by decide
+  rw [ht, k1, k2, k3, k4]
+  simp [fmtS, renderPairs, tok]
+
+/-- PROCESS_COMMUNICATION_STDOUT / _STDERR: header line processname, groupname, pid, then the
+    captured data, unchanged -/
+theorem process_comm_payload (name group pid data : Text) :
+    fmtS (ofString processCommTemplate) [name, group, pid, data] =
+      some (renderPairs [(ofString "processname", name), (ofString "groupname", group),
+        (ofString "pid", pid)] ++ 10 :: data) := by
+  have ht : ofString processCommTemplate = [112, 114, 111, 99, 101, 115, 115, 110, 97, 109, 101, 58, 37, 115, 32, 103, 114, 111, 117, 112, 110, 97, 109, 101, 58, 37, 115, 32, 112, 105, 100, 58, 37, 115, 10, 37, 115] := by decide
+  have k1 : ofString "processname" = [112, 114, 111, 99, 101, 115, 115, 110, 97, 109, 101] := by decide
+  have k2 : ofString "groupname" = [103, 114, 111, 117, 112, 110, 97, 109, 101] := by decide
+  have k3 : ofString "pid" = [112, 105, 100] := by decide
+  rw [ht, k1, k2, k3]
+  simp [fmtS, renderPairs, tok]
+
+/-- what a listener parses out of a PROCESS_LOG payload is what was announced: for process and
+    group names free of spaces and newlines, the reference parser returns exactly the four
+    header fields with the sent values and exactly the logged data (any data: further newlines,
+    colons, look-alike headers) -/
+theorem process_log_roundtrip (name group channel data : Text) (pid : Nat)
+    (h1 : 32 ∉ name ∧ 10 ∉ name) (h2 : 32 ∉ group ∧ 10 ∉ group) (h3 : 32 ∉ channel ∧ 10 ∉ channel) :
+    ∃ p, fmtS (ofString processLogTemplate) [name, group, dec pid, channel, data] = some p ∧
+      parseEnvelope p = some ([(ofString "processname", name), (ofString "groupname", group),
+        (ofString "pid", dec pid), (ofString "channel", channel)], data) := by
+  refine ⟨_, process_log_payload name group (dec pid) channel data, ?_⟩
+  apply header_roundtrip _ (by simp)
+  intro p hp
+  simp only [List.mem_cons, List.mem_nil_iff, or_false] at hp
+  have d := dec_free pid
+  rcases hp with rfl | rfl | rfl | rfl
+  · exact ⟨by show _ ∉ ofString _; decide, by show _ ∉ ofString _; decide, by show _ ∉ ofString _; decide, h1.1, h1.2⟩
+  · exact ⟨by show _ ∉ ofString _; decide, by show _ ∉ ofString _; decide, by show _ ∉ ofString _; decide, h2.1, h2.2⟩
+  · exact ⟨by show _ ∉ ofString _; decide, by show _ ∉ ofString _; decide, by show _ ∉ ofString _; decide, d.1, d.2.2⟩
+  · exact ⟨by show _ ∉ ofString _; decide, by show _ ∉ ofString _; decide, by show _ ∉ ofString _; decide, h3.1, h3.2⟩
+
 /-! ### ticks -/
 section ticks
 open Sv.Tick Sv.Gen.Tick
@@ -369,6 +445,36 @@ theorem tick_exact (t0 : Int) (clock : List Int) :
   intro e _
   rw [(tickPeriod_spec e.2 t0 none).2]
   rfl
+
+/-- **the slice in seconds**: `timeslice p t` — computed by the code as
+    `int(when - when % period)` — is `p * ⌊t / (1024·p)⌋`, the start in whole seconds of the
+    `p`-second slice containing the clock reading of `t` ticks (any reading, also negative; the
+    periods of TICK_EVENTS are positive: `tickEvents_periods_positive`) -/
+theorem slice_seconds (p t : Int) : slice p t = p * (t / (1024 * p)) := by
+  unfold slice timeslice
+  have h1 : t - t.emod (1024 * p) = 1024 * (p * (t / (1024 * p))) := by
+    have := Int.mul_ediv_add_emod t (1024 * p)
+    rw [← Int.mul_assoc]
+    show t - t % (1024 * p) = _
+    omega
+  rw [h1]
+  exact Int.mul_tdiv_cancel_left _ (by decide)
+
+theorem tickEvents_periods_positive : ∀ e ∈ tickEvents, 0 < e.2 := by decide
+
+/-- every announced tick says `when` = the start of the new slice, in seconds, and names the
+    class registered for its period -/
+theorem expected_when_seconds (prev now : Int) :
+    ∀ e ∈ expected prev now, e.when_ = e.period * (now / (1024 * e.period)) ∧ (e.cls, e.period) ∈ tickEvents := by
+  intro e he
+  unfold expected at he
+  rw [List.mem_filterMap] at he
+  obtain ⟨x, hx, hxe⟩ := he
+  split at hxe
+  · injection hxe with hxe
+    subst hxe
+    exact ⟨slice_seconds _ _, hx⟩
+  · simp at hxe
 
 -- non-vacuity: a clock that skips, repeats and goes backwards
 example : Tick.run [0, 5119, 5120, 5120, 1024 * 61, 1024 * 3] =
